@@ -141,7 +141,7 @@ const char *g_probe_name[PR__N] = {
     "dist_threads_max","km_rounds","merges","dp_steps","km_nodes",
     "fs_reads","fs_short_reads","fs_read_faults","fs_open_faults","fs_stat_faults","fs_writes","fs_write_faults",
     "clock_reads","allocs","alloc_fails","junk_bytes",
-    "c10_nodes_checked_in_output"
+    "unusual_branches_taken","c10_nodes_checked_in_output"
 };
 
 #define STACK_SIZE ((size_t)64 << 20)
